@@ -99,7 +99,8 @@ namespace foonathan
                 auto fence  = detail::debug_fence_size;
                 auto offset = detail::align_offset(stack.top() + fence, alignment);
                 if (!stack.top()
-                    || (fence + offset + size + fence > std::size_t(block_end(cur_) - stack.top())))
+                    || !detail::stack_allocation_fits(fence, offset, size,
+                                                      std::size_t(block_end(cur_) - stack.top())))
                     FOONATHAN_THROW(out_of_fixed_memory(info(), size));
                 return stack.allocate_unchecked(size, offset);
             }
